@@ -12,7 +12,10 @@ import (
 	"fmt"
 	"math"
 	"os"
+	"strconv"
+	"strings"
 	"sync"
+	"sync/atomic"
 	"time"
 
 	"github.com/goose-lang/goose/machine"
@@ -195,6 +198,31 @@ func main() {
 			}
 			fmt.Fprintf(w, "A %s %v -> %s\n", which, b, res)
 		}
+	}
+	// UInt64ToString from several goroutines at once: a pure function of its argument
+	{
+		var wrong atomic.Int64
+		var first atomic.Value
+		var cwg sync.WaitGroup
+		for g := 0; g < 8; g++ {
+			cwg.Add(1)
+			go func(g int) {
+				defer cwg.Done()
+				x := uint64(g)*0x9e3779b97f4a7c15 + 12345
+				for i := 0; i < 40000; i++ {
+					x = x*6364136223846793005 + 1442695040888963407
+					v := x >> uint(i%64)
+					if got, want := machine.UInt64ToString(v), strconv.FormatUint(v, 10); got != want {
+						if wrong.Add(1) == 1 {
+							first.Store(fmt.Sprintf("UInt64ToString(%d)=%q", v, got))
+						}
+					}
+				}
+			}(g)
+		}
+		cwg.Wait()
+		f, _ := first.Load().(string)
+		fmt.Fprintf(w, "P concurrent-tostring calls=320000 wrong=%d %s\n", wrong.Load(), strings.ReplaceAll(f, " ", "_"))
 	}
 	for _, t := range []uint64{0, 1, 10, 50} {
 		waitScenario(w, "timeout", t)
